@@ -1,6 +1,7 @@
 package main
 
 import (
+	"fmt"
 	"go/token"
 
 	"golang.org/x/tools/go/ssa"
@@ -129,3 +130,173 @@ func checkAdditiveBounds(p *Program, r *Result, rule string, fns []*ssa.Function
 		r.note(rule, "mcap", "additive bounds", "", "no slice bound of the form checked value + constant found")
 	}
 }
+
+// sumForm is a linear combination of opaque SSA values (and len(x) terms, identified by x) plus a constant.
+type sumForm struct {
+	coef map[string]int64
+	k    int64
+}
+
+func linearize(v ssa.Value, sign int64, out *sumForm, depth int) {
+	if depth > 8 {
+		out.coef[fmtPtr(v)] += sign
+		return
+	}
+	switch x := v.(type) {
+	case *ssa.Const:
+		if x.Value != nil && isIntegerType(x.Type()) {
+			out.k += sign * x.Int64()
+			return
+		}
+	case *ssa.Convert:
+		if isIntegerType(x.X.Type()) {
+			linearize(x.X, sign, out, depth+1)
+			return
+		}
+	case *ssa.BinOp:
+		if x.Op == token.ADD {
+			linearize(x.X, sign, out, depth+1)
+			linearize(x.Y, sign, out, depth+1)
+			return
+		}
+		if x.Op == token.SUB {
+			linearize(x.X, sign, out, depth+1)
+			linearize(x.Y, -sign, out, depth+1)
+			return
+		}
+	case *ssa.Call:
+		if b, ok := x.Call.Value.(*ssa.Builtin); ok && b.Name() == "len" && len(x.Call.Args) == 1 {
+			out.coef["len:"+fmtPtr(x.Call.Args[0])] += sign
+			return
+		}
+	}
+	out.coef[fmtPtr(v)] += sign
+}
+
+func newSumForm() *sumForm { return &sumForm{coef: map[string]int64{}} }
+
+func (l *sumForm) clean() {
+	for k, c := range l.coef {
+		if c == 0 {
+			delete(l.coef, k)
+		}
+	}
+}
+
+// checkSumBounds: C10.k for a slice x[lo : a + b] whose high bound is the sum of two non-constant values, one of them
+// input-derived. Where a guard on the dominating path relates len(x) to b (or a), its continuing side must imply
+// a + b <= len(x): `len(x) - a < b`, `a + b > len(x)`, `b > len(x) - a` (and their conversions) do; `len(x) + a < b` does not.
+func checkSumBounds(p *Program, r *Result, rule string, fns []*ssa.Function) {
+	n := 0
+	for _, fn := range fns {
+		seen := map[string]int{}
+		for _, in := range instrsOf(fn) {
+			sl, ok := in.(*ssa.Slice)
+			if !ok || sl.High == nil || !isByteSlice(sl.X.Type()) {
+				continue
+			}
+			hi := sl.High
+			for {
+				c, ok := hi.(*ssa.Convert)
+				if !ok {
+					break
+				}
+				hi = c.X
+			}
+			add, ok := hi.(*ssa.BinOp)
+			if !ok || add.Op != token.ADD {
+				continue
+			}
+			if _, c := add.X.(*ssa.Const); c {
+				continue
+			}
+			if _, c := add.Y.(*ssa.Const); c {
+				continue
+			}
+			target := newSumForm() // a + b - len(x)
+			linearize(hi, 1, target, 0)
+			lenKey := "len:" + fmtPtr(sl.X)
+			target.coef[lenKey]--
+			target.clean()
+			if len(target.coef) != 3 {
+				continue
+			}
+			found, proved := false, false
+			for d := in.Block(); d != nil; d = d.Idom() {
+				if len(d.Preds) != 1 {
+					continue
+				}
+				pr := d.Preds[0]
+				iff, ok := pr.Instrs[len(pr.Instrs)-1].(*ssa.If)
+				if !ok {
+					continue
+				}
+				cmp, ok := iff.Cond.(*ssa.BinOp)
+				if !ok {
+					continue
+				}
+				op := cmp.Op
+				if pr.Succs[0] != d {
+					op = map[token.Token]token.Token{token.LSS: token.GEQ, token.LEQ: token.GTR, token.GTR: token.LEQ, token.GEQ: token.LSS}[op]
+				}
+				e := newSumForm() // continuing side as e <= 0 (or e < 0)
+				strict := false
+				switch op {
+				case token.LSS, token.LEQ:
+					linearize(cmp.X, 1, e, 0)
+					linearize(cmp.Y, -1, e, 0)
+					strict = op == token.LSS
+				case token.GTR, token.GEQ:
+					linearize(cmp.Y, 1, e, 0)
+					linearize(cmp.X, -1, e, 0)
+					strict = op == token.GTR
+				default:
+					continue
+				}
+				e.clean()
+				if _, hasLen := e.coef[lenKey]; !hasLen {
+					continue
+				}
+				mentions := 0
+				for k := range target.coef {
+					if _, ok := e.coef[k]; ok {
+						mentions++
+					}
+				}
+				if mentions < 3 {
+					continue
+				}
+				found = true
+				same := len(e.coef) == len(target.coef)
+				for k, c := range target.coef {
+					if e.coef[k] != c {
+						same = false
+					}
+				}
+				if same && (e.k >= 0 || (strict && e.k >= -1)) {
+					proved = true
+				}
+			}
+			if !found {
+				continue
+			}
+			n++
+			construct := "slice-high(" + valueLabel(sl.X) + ") <- " + valueLabel(add.X) + " + " + valueLabel(add.Y) + " within len"
+			seen[construct]++
+			if k := seen[construct]; k > 1 {
+				construct += " #" + itoa(k-1)
+			}
+			if proved {
+				r.held(rule, funcName(fn), construct, p.pos(in.Pos()), "a guard on the path implies that the sum is at most the length of the sliced buffer")
+			} else {
+				r.violated(rule, funcName(fn), construct, p.pos(in.Pos()),
+					"the guards on the path relate the two summands to the buffer length but do not imply that their sum stays within it: the slice may reach past the end of the buffer (panic)")
+			}
+		}
+	}
+	if n == 0 {
+		r.note(rule, "mcap", "sum bounds", "", "no slice bound of the form a + b guarded against len found")
+	}
+}
+
+func fmtPtr(v ssa.Value) string { return fmt.Sprintf("%p", v) }
